@@ -119,7 +119,7 @@ def run(ctx):
         plan = [("mem", 1, 4), ("mem", 2, 5), ("mem", 3, 5), ("disk", 1, 4), ("disk", 2, 4)]
         nrand, rlen = 300, 200
     else:
-        plan = [("mem", 0, 4), ("mem", 1, 5), ("mem", 2, 6), ("mem", 3, 6), ("disk", 0, 4), ("disk", 1, 5), ("disk", 2, 5), ("disk", 3, 5)]
+        plan = [("mem", 0, 4), ("mem", 1, 5), ("mem", 2, 6), ("mem", 3, 5), ("disk", 0, 4), ("disk", 1, 5), ("disk", 2, 5), ("disk", 3, 4)]
         nrand, rlen = 3000, 300
     impl_model(ctx)
     total_programs = 0
